@@ -34,7 +34,7 @@ ASSUMPTIONS = [
     "container objects (object streams, xref streams) are defined objects and expected in get_objids()",
     "damage = startxref / xref keyword / subsection header / entry format / entry offset; trailer damage is outside 'cross-reference table'",
 ]
-PROBES = ["form:table", "form:stream", "form:hybrid", "packed objects", "override of packed by direct", "override of direct by packed", "multi-range Index", "nested getobj for indirect Length", "eviction happened", "caching off", "startxref boundary placed", "crlf eol", "cr-only eol", "bytes after %%EOF", "repository sample", "zero-width type field", "hybrid with free entries"]
+PROBES = ["free entry for a never-defined number", "cross-reference stream update without entries", "form:table", "form:stream", "form:hybrid", "packed objects", "override of packed by direct", "override of direct by packed", "multi-range Index", "nested getobj for indirect Length", "eviction happened", "caching off", "startxref boundary placed", "crlf eol", "cr-only eol", "bytes after %%EOF", "repository sample", "zero-width type field", "hybrid with free entries"]
 TIERS = {
     "quick": {"batches": 16, "runs": 1200, "budget_s": 45},
     "thorough": {"batches": 128, "runs": 2500, "budget_s": 900},
@@ -233,6 +233,7 @@ def write_history(t, revs, ctx, forms=None):
             ent = {i: (e[1], e[2]) for i, e in entries.items()}
             if ri == 0 or t.coin(30, 100, "free0"):
                 ent[0] = (None, 65535)
+            free_fillers(t, ctx, ent, used_ids)
             split = set(i for i in ent if t.coin(15, 100, "split"))
             prev = fw.xref_table(ent, trailer, entry_eol=t.pick([b" \n", b" \r", b"\r\n"], "entry.eol"), split=split)
         elif form == "stream":
@@ -261,6 +262,19 @@ def write_history(t, revs, ctx, forms=None):
             split = set(i for i in ent if t.coin(15, 100, "split"))
             prev = fw.xref_table(ent, trailer, entry_eol=t.pick([b" \n", b" \r", b"\r\n"], "entry.eol"), split=split)
         desc.append("%s(direct=%s packed=%s)" % (form, sorted(direct), sorted(packed)))
+        if t.coin(6, 100, "empty.update"):
+            # an incremental update that changes nothing: a cross-reference stream with /Index [] and no entries
+            xid = fresh_id()
+            size = max(size, xid + 1)
+            d = {b"Type": Name(b"XRef"), b"W": [1, 2, 1], b"Index": [], b"Size": size, b"Root": Ref(rv["root"], 0), b"Prev": prev, b"Length": 0}
+            if rv["info"] is not None:
+                d[b"Info"] = Ref(rv["info"], 0)
+            off = fw.pos()
+            fw.add_object(xid, Stream(d, b""), wild=False)
+            fw._startxref(off)
+            prev = off
+            desc[-1] += "+empty-xrefstm-update"
+            ctx.probe("cross-reference stream update without entries")
         if t.coin(20, 100, "tail.junk"):
             # white space or a comment after %%EOF (and before the next update)
             fw.buf += t.pick([b"\n", b"\r\n\r\n", b"% trailing comment\n", b"   \n"], "tail.bytes")
@@ -268,6 +282,16 @@ def write_history(t, revs, ctx, forms=None):
         prefixes.append(fw.getvalue())
         container_list.append(set(containers))
     return prefixes, container_list, list(fw.cuts), desc
+
+
+def free_fillers(t, ctx, ent, used_ids):
+    """Free entries for object numbers that no revision ever defines, placed directly in front of an entry in use (so
+    that a subsection may begin with a free entry, also at object 1): they define nothing and hide nothing."""
+    for i in sorted(ent):
+        j = i - 1
+        if j >= 1 and j not in used_ids and j not in ent and j < 100 and t.coin(12, 100, "free.filler"):
+            ent[j] = (None, t.pick([0, 1, 65535, 65535], "free.filler.gen"))
+            ctx.probe("free entry for a never-defined number")
 
 
 def write_xref_stream(t, fw, xid, entries, trailer, ctx, free0, with_startxref=True):
